@@ -1110,11 +1110,14 @@ func ModelInput(res *Result) string {
 			}
 		}
 		rootField = strings.Join(rs, "+")
+		if c.Mode == "X" {
+			xn = fmt.Sprintf("xt=%d ", c.Root) // an ExtendedCopy run, whatever its outcome
+		}
 		if c.Mode == "X" && len(res.Toks) >= 3 {
 			k := len(res.Toks)
 			if res.Toks[k-3] == fmt.Sprintf("TB.%d", c.Root) && res.Toks[k-2] == fmt.Sprintf("TE.%d", c.Root) {
 				tr = strings.Join(append(append([]string(nil), res.Toks[:k-3]...), res.Toks[k-1]), ",")
-				xn = fmt.Sprintf("xn=%d ", c.Root) // ExtendedCopy: TagB/TagE of this node were taken out right before the final RT (Model/CopyExt.v puts them back)
+				xn += fmt.Sprintf("xn=%d ", c.Root) // ExtendedCopy: TagB/TagE of this node were taken out right before the final RT (Model/CopyExt.v puts them back)
 			}
 		}
 	}
